@@ -1593,6 +1593,50 @@ pub fn stats(sc: &Scenario, reports: &[ChildReport]) -> ScenarioStats {
             }
         }
         bump(&mut st.probes, &format!("expected_{}", r.expected_kind));
+        // input dimensions that exist because a change once slipped past without them (§14): how
+        // often each one actually occurred
+        {
+            let mut dims: BTreeSet<&'static str> = BTreeSet::new();
+            for f in &w.files {
+                if f.bom { dims.insert("dim:file_with_byte_order_mark"); }
+                if f.no_final_newline { dims.insert("dim:file_without_final_newline"); }
+                if f.spelling != 0 { dims.insert("dim:alternative_tag_spellings"); }
+                if f.block_comments != 0 { dims.insert("dim:tags_in_block_comments"); }
+                if f.tab_tags { dims.insert("dim:tab_after_tag_name"); }
+                if f.lang.is_some() { dims.insert("dim:file_mapped_with_-E"); }
+                if f.was_symlink { dims.insert("dim:type_change_two_sections_one_path"); }
+                if f.path.contains("..") { dims.insert("dim:consecutive_dots_in_a_name"); }
+                if f.path.contains('\\') { dims.insert("dim:backslash_in_a_name"); }
+                if f.path.contains(['[', '{']) { dims.insert("dim:glob_metacharacters_in_a_name"); }
+                if !f.path.rsplit('/').next().unwrap_or("").contains('.') { dims.insert("dim:file_name_without_a_dot"); }
+                if f.path.ends_with(".md") || f.path.ends_with(".markdown") || f.path.ends_with(".html") { dims.insert("dim:markdown_or_html_file"); }
+                if render_file(f, false).blocks.iter().any(|b| b.tag_lines > 1) { dims.insert("dim:start_tag_over_several_lines"); }
+                if !w.is_terminal() {
+                    let edits = f.diff.edits();
+                    if edits.len() > 1 { dims.insert("dim:two_edits_in_one_file_section"); }
+                    for (_, e) in &edits {
+                        match e {
+                            LineEdit::Inserted => { dims.insert("dim:edit_line_added"); }
+                            LineEdit::Replaced { old } if is_tag_rewrite(old) => { dims.insert("dim:edit_start_tag_rewritten"); }
+                            LineEdit::Replaced { .. } => { dims.insert("dim:edit_line_replaced"); }
+                            LineEdit::Removed { .. } => { dims.insert("dim:edit_line_removed"); }
+                        }
+                    }
+                    if matches!(&f.diff, FileDiff::Insert { renamed_from: Some(_), .. }) { dims.insert("dim:renamed_and_edited_file"); }
+                    if matches!(f.diff, FileDiff::Deleted) { dims.insert("dim:deleted_file_section"); }
+                }
+            }
+            if !w.is_terminal() {
+                if w.diff_context > 0 { dims.insert("dim:diff_with_context_lines"); }
+                if !w.diff_noise.is_empty() { dims.insert("dim:binary_or_mode_sections"); }
+            }
+            if w.args.dashdash { dims.insert("dim:double_dash_before_globs"); }
+            if w.args.extensions.len() > 1 { dims.insert("dim:several_-E_mappings"); }
+            if !w.cwd.is_empty() { dims.insert("dim:started_from_subdirectory"); }
+            for d in dims {
+                bump(&mut st.probes, d);
+            }
+        }
         for t in &sc.tags {
             if t.starts_with("big=") {
                 bump(&mut st.probes, t);
